@@ -230,6 +230,52 @@ func init() {
 		m.alive = false
 		return "ok"
 	})
+	// c.settle: routing updates and balancer passes until two consecutive rounds change neither the routing table
+	// nor the placement of any entry (three such rounds in a row, at most 80 rounds): "once the cluster has stabilised"
+	register("c.settle", func(a []string) string {
+		snapshot := func() string {
+			var sb strings.Builder
+			for i, m := range cl.members {
+				if !m.alive {
+					continue
+				}
+				iv := m.db.VerifInternals()
+				parts := optInt(cl.opts, "parts", 7)
+				for p := 0; p < parts; p++ {
+					fmt.Fprintf(&sb, "%d:%d:%d:%d:%s:%s;", i, p, iv.Primary.PartitionByID(uint64(p)).Length(), iv.Backup.PartitionByID(uint64(p)).Length(),
+						fmtMems(iv.Primary.PartitionByID(uint64(p)).Owners()), fmtMems(iv.Backup.PartitionByID(uint64(p)).Owners()))
+				}
+			}
+			return sb.String()
+		}
+		prev, same := "", 0
+		for round := 1; round <= 80; round++ {
+			for _, m := range cl.members {
+				if m.alive && m.db.VerifInternals().RT.VerifIsCoordinator() {
+					m.db.VerifInternals().RT.UpdateEagerly()
+				}
+			}
+			for _, m := range cl.members {
+				if m.alive {
+					// the empty-fragment janitor is part of the background activity: a balancer pass stops at the
+					// first empty fragment it meets in a partition
+					m.db.VerifInternals().DMap.VerifJanitor()
+					m.db.VerifInternals().Balancer.BalanceEagerly()
+				}
+			}
+			cur := snapshot()
+			if cur == prev {
+				same++
+				if same >= 3 {
+					return "ok rounds=" + strconv.Itoa(round)
+				}
+			} else {
+				same = 0
+			}
+			prev = cur
+		}
+		return "unsettled"
+	})
 	// c.balanceall: one synchronous balancer pass on every live member
 	register("c.balanceall", func(a []string) string {
 		for _, m := range cl.members {
